@@ -11,6 +11,11 @@ CLAIMED = {
         "note": "Does not decide order-independence/idempotence as equality of results, nor deep sharing of immutable parts. Effect summaries assume helpers return fresh objects unless they return a parameter through assignment/attribute/subscript/iteration/shallow copy, and that caller-supplied callables do not mutate their arguments.",
         "technique": "static analysis: dataclass-field vs call-site table comparison, CFG dominance, who-may-write census, interprocedural alias/mutation summaries",
     },
+    "C04": {
+        "text": "Static decision of the structural conditions of backend equivalence: every load of a name imported from the bindings door (45 sites) is control-dependent on the one dispatch predicate -- locally, through every caller in the closed package, or through a token (a value or field that is non-None only when the predicate answered true); the flag has exactly one runtime writer, the predicate is uncached and no module keeps its answer; btclib_secp256k1 is imported in one module; every bindings call has a ValueError handler at the call or in every caller, or is a row of a reviewed table of calls whose preconditions exclude the raise, and handlers raise library classes only; each function asking the predicate keeps a bindings-free path to a normal return; zero scalars and infinity never reach a delegated call.",
+        "note": "Does not decide byte-for-byte parity of values between the arms (e.g. the scan_transaction_outputs divergence of DESIGN.md section 5 is out of reach). The NO_HANDLER / RUNTIME_UNCONVERTED tables in rules/C04.py are reviewed by reading and trusted.",
+        "technique": "static analysis: CFG control-dependence on a predicate (guard facts), call-graph closure, who-may-write/import census, handler coverage",
+    },
 }
 
 _PENDING = "check not built yet in this session (static rules designed in DESIGN.md section 4)"
